@@ -8,6 +8,7 @@ import (
 	"bytes"
 	"context"
 	"encoding/binary"
+	"errors"
 	"fmt"
 	"io"
 	"net"
@@ -401,7 +402,30 @@ func (e *evObs) OnEvent(t upstream.Event) {
 	}
 }
 
-const blockedTimeout = 40 * time.Second // only to detect "blocked"
+// Every exchange the driver starts has a deadline, so that a reply that never
+// reaches the caller is an observed error and the driver cannot hang. The
+// deadline is generous (the machine may be loaded); once a few exchanges have
+// run into it, the rest of the run uses a short one to stay bounded.
+const blockedTimeout = 6 * time.Second
+const blockedTimeoutShort = 400 * time.Millisecond
+
+var blockedSeen atomic.Int64
+
+func callTimeout() time.Duration {
+	if blockedSeen.Load() >= 3 {
+		return blockedTimeoutShort
+	}
+	return blockedTimeout
+}
+
+// noteBlocked records that an exchange which should have been answered ran
+// into its deadline.
+func noteBlocked(err error) {
+	if err != nil && errors.Is(err, context.DeadlineExceeded) {
+		blockedSeen.Add(1)
+	}
+}
+
 const silentTimeout = 250 * time.Millisecond
 const wireTimeout = 15 * time.Second
 
@@ -442,7 +466,7 @@ func runSession(id string, listening, withObserver bool, steps []stepIn) (res se
 		s.cur.Store(st)
 		q := in.query()
 		qc := append([]byte(nil), q...)
-		tmo := blockedTimeout
+		tmo := callTimeout()
 		if in.u.silent {
 			tmo = silentTimeout
 		}
@@ -452,6 +476,9 @@ func runSession(id string, listening, withObserver bool, steps []stepIn) (res se
 		var xerr error
 		p := hx.Recover(func() { r, xerr = u.ExchangeContext(ctx, q) })
 		cancel()
+		if !in.u.silent {
+			noteBlocked(xerr)
+		}
 		out := "OErr"
 		outDesc := "error"
 		switch {
@@ -718,9 +745,10 @@ func runDial(dc dialCase) *sessResult {
 			return
 		}
 		q := rawMsg(0x1D17, 1, 0, 0, hx.GenBytes(17, 5))
-		ctx, cancel := context.WithTimeout(context.Background(), blockedTimeout)
+		ctx, cancel := context.WithTimeout(context.Background(), callTimeout())
 		r, xerr := u.ExchangeContext(ctx, q)
 		cancel()
+		noteBlocked(xerr)
 		if xerr != nil || r == nil {
 			return
 		}
@@ -1159,10 +1187,11 @@ func runStale(id string, k int, p1 []timedQ, q2 timedQ) (*sessResult, error) {
 		go func(i int) {
 			defer wg.Done()
 			q := p1[i].bytes()
-			ctx, cancel := context.WithTimeout(context.Background(), blockedTimeout)
+			ctx, cancel := context.WithTimeout(context.Background(), callTimeout())
 			defer cancel()
 			hx.Recover(func() {
 				r, err := u.ExchangeContext(ctx, q)
+				noteBlocked(err)
 				if err == nil && r != nil {
 					p1ok[i] = bytes.Equal(*r, tcpDerivedReply(q)[2:])
 					pool.ReleaseBuf(r)
@@ -1179,7 +1208,7 @@ func runStale(id string, k int, p1 []timedQ, q2 timedQ) (*sessResult, error) {
 	w.mu.Lock()
 	w.phase = 2
 	w.mu.Unlock()
-	res, desc := exchangeOres(u, q2.bytes(), blockedTimeout)
+	res, desc := exchangeOres(u, q2.bytes(), callTimeout())
 	w.mu.Lock()
 	acc, seenN, same := w.accepted, w.seenN, w.seenSame
 	w.mu.Unlock()
